@@ -22,6 +22,7 @@ Proof.
   - intros t _. split; discriminate.
   - intros t o _ Ho. lia.
   - intros t _. now left.
+  - intros t _. apply cull_ok_none. reflexivity.
   - intros t x _ [].
   - intros t _. auto.
 Qed.
